@@ -83,7 +83,7 @@ def consume(target, queue, depth=0):
     return consume(left, queue, depth + 1) and consume(right, queue, depth + 1)
 
 
-def run_subdivide(nodes, flat, as_tuples=False):
+def run_subdivide(nodes, flat, as_tuples=False, judge_curve=True):
     """nodes: tuple of (handle_in, point, handle_out) tuples.  Returns [(clause, msg)], splits.
     as_tuples: hand the points over as (x, y) tuples instead of [x, y] lists (the function
     itself inserts tuples, so both representations occur in its own intermediate states)."""
@@ -159,7 +159,7 @@ def run_subdivide(nodes, flat, as_tuples=False):
     # same curve: pieces between consecutive original nodes refine the original piece dyadically
     orig_pieces = pieces(start)
     fin_pieces = pieces(final)
-    for k, target in enumerate(orig_pieces):
+    for k, target in enumerate(orig_pieces if judge_curve else []):
         queue = fin_pieces[where[k]:where[k + 1]]
         if not consume(target, queue) or queue:
             out.append(("same_curve", f"{desc}: the pieces between original nodes {k} and {k + 1} "
@@ -175,6 +175,26 @@ def run_subdivide(nodes, flat, as_tuples=False):
                             f"control point at distance {float(dist2) ** 0.5} >= flatness {flat}"))
                 break
     return out, len(states) - 1
+
+
+def needle_node_lists():
+    """Long, nearly straight pieces: chord 2^17 (axis-parallel) or 5 * 2^15 (along 3:4), inner
+    control points m flatness-units off the chord, flatness about 4e-9 of the chord length.
+    Everything is dyadic, so the distances are exact here - but a formula that subtracts two
+    nearly equal squares has lost them.  Judged on flatness and node survival only (positions
+    of inserted nodes need not be exact to the last bit at this dynamic range)."""
+    out = []
+    unit = 2.0 ** -13
+    for (d_x, d_y), (n_x, n_y), flat in (((1 << 17, 0), (0, 1), unit),
+                                         ((3 << 15, 4 << 15), (-4, 3), 5 * unit)):
+        for m_1, m_2 in ((2.5, 2.5), (2.0, -2.0), (0.5, 3.0), (8.0, 0.0), (0.5, 0.5), (0.0, 2.5)):
+            for t_1, t_2 in ((0.25, 0.75), (0.5, 0.5), (0.125, 0.25)):
+                p_1 = (d_x * t_1 + n_x * m_1 * unit, d_y * t_1 + n_y * m_1 * unit)
+                p_2 = (d_x * t_2 + n_x * m_2 * unit, d_y * t_2 + n_y * m_2 * unit)
+                nodes = (((0.0, 0.0), (0.0, 0.0), p_1), (p_2, (float(d_x), float(d_y)),
+                                                         (float(d_x), float(d_y))))
+                out.append((nodes, flat))
+    return out
 
 
 def one_piece(ctrl):
@@ -269,8 +289,10 @@ def _chunk(args):
         as_tuples = kind == "one_t"
         nodes = one_piece(item) if kind in ("one", "one_t") else \
             (two_pieces(item) if kind == "two" else item)
+        if kind == "needle":
+            nodes, flats = item[0], [item[1]]
         for flat in flats:
-            bad, splits = run_subdivide(nodes, flat, as_tuples)
+            bad, splits = run_subdivide(nodes, flat, as_tuples, judge_curve=kind != "needle")
             part.count("calls")
             part.count("states", splits + 1)
             part.count("transitions", max(splits, 1))
@@ -280,10 +302,11 @@ def _chunk(args):
             for clause, msg in bad:
                 part.violation(f"{clause}:{kind}:{item}:{flat}", msg,
                                {"kind": "curve", "nodes": [[list(p) for p in n] for n in nodes],
-                                "flat": flat, "as_tuples": as_tuples})
+                                "flat": flat, "as_tuples": as_tuples,
+                                "judge_curve": kind != "needle"})
     if items:
         mid = items[len(items) // 2]
-        part.sample({"family": kind, "control_points": [list(p) for p in mid] if kind != "raw"
+        part.sample({"family": kind, "control_points": [list(p) for p in mid] if kind not in ("raw", "needle")
                      else str(mid), "flatness": list(flats)}, limit=1)
     return part
 
@@ -313,6 +336,7 @@ def run(ctx):
         jobs.append(("raw", [nodes], [0.3, 1.0]))
     for chunk in core.split(ones[::ctx.pick(5, 1)], 16):
         jobs.append(("similar", chunk, [0.3, 1.0]))
+    jobs.append(("needle", needle_node_lists(), None))
     part = core.fan_out(ctx, _chunk, jobs)
     cnt = part.counters
     coverage = {
@@ -325,7 +349,7 @@ def run(ctx):
                 f"{flats}; two-piece node lists over a 5-point sub-lattice (5^7, every 9th in "
                 "quick); the one-piece curves again with points given as tuples (flatness 0.3, 1.0); "
                 "empty and single-node lists; six chained lists of 10..60 nodes; every 5th "
-                "(thorough: every) one-piece curve again unscaled but shifted by (2^31, -2^30), and scaled by 2^16 and shifted by (2^20, "
+                "36 x 2 long nearly straight pieces (flatness 4e-9 of the chord, control points 0.5..8 flatness units off it); (thorough: every) one-piece curve again unscaled but shifted by (2^31, -2^30), and scaled by 2^16 and shifted by (2^20, "
                 "-2^21), which must give the image of the unscaled result; states = node lists observed after every "
                 "split; non-trivial = calls that split at least once; all inputs distinct",
         "samples": core.rotate(part.samples, ctx.seed, 4),
@@ -343,4 +367,5 @@ def replay(case):
     nodes = tuple(tuple(tuple(p) for p in n) for n in case["nodes"])
     if case["kind"] == "similar":
         return [m for _c, m in check_similarity(nodes, case["flat"])]
-    return [m for _c, m in run_subdivide(nodes, case["flat"], case.get("as_tuples", False))[0]]
+    return [m for _c, m in run_subdivide(nodes, case["flat"], case.get("as_tuples", False),
+                                         case.get("judge_curve", True))[0]]
